@@ -135,6 +135,19 @@ def run(ctx):
                 ctx.violation(f"{sc.name}|{sc.mode}|content-tree",
                               f"after SIGKILL at visible call {n}" + (f" (write torn to {k} bytes)" if k is not None else "") +
                               f" of {sc.name}: {probs[0]}", det)
+            # content that was already stored before the interrupted write must still be there, byte-identical
+            for q in sc.prep:
+                if q["op"] in ("write", "write_hash") and "hex" in q.get("data", {}):
+                    pd = bytes.fromhex(q["data"]["hex"])
+                    pp = ref.content_path(cache, "sha256", __import__("hashlib").sha256(pd).hexdigest())
+                    try:
+                        okp = open(pp, "rb").read() == pd
+                    except OSError:
+                        okp = False
+                    if not okp:
+                        ctx.violation(f"{sc.name}|{sc.mode}|pre-existing-content-lost",
+                                      f"after SIGKILL at visible call {n} of {sc.name}, content that was stored before the "
+                                      f"operation started is missing or changed", det)
             # a fresh process must see a consistent picture
             ctx.count("content_files_examined", len(ref.content_census(cache)))
             for m in ("sync@astd", "async@tok"):
